@@ -1,6 +1,6 @@
-\* exhaustive: 4 L1 blocks, 3 events, 1 reorg, 1 failure, chunk size in {1,2,10}
-\* measured: 7 533 372 distinct / 28 367 937 generated states (3 min on 8 workers)
-\* (4 blocks / 4 events: > 25 M distinct states, 20 min - not affordable; larger bounds are sampled by trace validation)
+\* exhaustive: 4 L1 blocks, 3 events, 1 reorg, 1 failure, 1 restart, chunk size in {1,2,10}
+\* measured: 17 338 704 distinct / 71 368 433 generated states, depth 35 (6 min on 16 loaded workers)
+\* (4 blocks / 4 events: > 25 M distinct states without restarts - not affordable; larger bounds are sampled by trace validation)
 CONSTANTS
   MaxBlocks = 4
   MaxEvents = 3
